@@ -47,6 +47,7 @@ def main():
     fs = dict(codec_bytes=6000 if big else 700, codec_texts=4000 if big else 500, exhaustive=chk.thorough, cli=40 if big else 10,
               loop_scripts=15000 if big else 2500, loop_real=600 if big else 80, unrep_e2e=60 if big else 12)
     cex = []
+    cex += C.falsify_test_set(chk, names)[:2]          # first: it names the test set the code implements
     cex += C.falsify_classification(chk, names, ships)
     cex += C.falsify_codecs(chk, fs)
     cex += C.falsify_loop(chk, fs)
@@ -54,7 +55,7 @@ def main():
                       | {'utf-16', 'utf-7', 'idna', 'punycode', 'cp037', 'iso-8859-16', 'mac-roman', 'hz', 'iso2022_jp', 'unicode_escape'})
     cex += C.falsify_unrepresentable(chk, charsets, fs)
     cex += C.falsify_loader(chk, names)
-    chk.evaluations += sum(sum(v.values()) for v in chk.coverage.get('falsifier', {}).values() if isinstance(v, dict))
+    chk.evaluations += sum(sum(x for x in v.values() if isinstance(x, int)) for v in chk.coverage.get('falsifier', {}).values() if isinstance(v, dict))
     seen = set()
     fresh = 0
     for c in cex:
